@@ -17,6 +17,11 @@ property oracles run on the REAL outputs (these decide VIOLATION with a failing 
    directed requests; for the symmetric ones - alignments, present offset - equivalent by the verified checker sep_equivb, because
    the sign bit of a zero CENTRE/EQ gap depends on the id order); the record stored by addFixedRelativeSep(id1,id2) holds for the
    present placement (real generated constraints);
+ - subset transforms (harness mode sub, corpus/c18_subset.json first): Graph::transformOpenSubset / transformClosedSubset on arbitrary sparse
+   matrices (raw ids, empty rows, set ids foreign to the matrix) must equal the extracted declarative specification spec_open (AT LEAST
+   ONE node in the set) / spec_closed (BOTH) - exhaustive over 5 ids x all subsets x 7 transforms for a family of matrices, random larger
+   ones with the rows outside the set in ascending and in non-monotone partner patterns; the loop model SepSubsetModel.v (proved equal to
+   the specification, C18_transformOpenSubset_spec / C18_transformClosedSubset_spec) is compared as correspondence;
  - TGLF: Graph::writeTglf(useExternalIds) -> buildGraphFromTglf in both id modes on graphs whose nodes all / partly / never carry an
    external id, with controlled internal ids (boundary-directed at the case split "smallest internal id lacking an external id vs
    largest external id"): written node ids pairwise distinct and equal to the given ids where they exist, node/edge/route dumps
@@ -852,11 +857,12 @@ def run(tier):
     # and against the loop model SepSubsetModel.v (correspondence; proved equal to the specification on well-formed input)
     sub_cases, sub_exh, sub_mats = gen_subset(rng.fork(), tier)
     corpus_sub = os.path.join(C.VERIF, 'corpus', 'c18_subset.json')
-    n_corpus_sub = 0
+    n_corpus_sub, sub_notes = 0, []
     if os.path.exists(corpus_sub):
         cs_ = json.load(open(corpus_sub))
         n_corpus_sub = len(cs_)
         sub_cases = [('corpus', e['case']) for e in cs_] + sub_cases          # the corpus runs first
+        sub_notes = [e.get('note', '') for e in cs_]
     sf = os.path.join(tmp, 'sub.txt')
     with open(sf, 'w') as fh:
         fh.write('\n'.join(c[1] for c in sub_cases) + '\n')
@@ -912,7 +918,7 @@ def run(tier):
             elif (sa[i] != M or M != S_) and len(corr_diffs) < 5:
                 corr_diffs.append({'section': 'sub', 'case': line, 'implementation': sa[i], 'loop_model': M, 'specification': S_})
         sub_fail.sort()
-        # the first failing corpus case (the corpus runs first) and the smallest failing case of the generator families
+        # the smallest failing corpus case (the corpus runs first) and the smallest failing case of the generator families
         report = [j for (_, j) in sub_fail if sub_cases[j][0] == 'corpus'][:1] + [j for (_, j) in sub_fail if sub_cases[j][0] != 'corpus'][:1]
         for i in report:
             fam, line = sub_cases[i]
@@ -930,7 +936,7 @@ def run(tier):
                                   'left_untransformed': got.get(k_) == before.get(k_)})
             kd, t, ids = ops[0]
             descr = ', '.join('(%d,%d) %s' % (w['pair'][0], w['pair'][1],
-                                              'left untransformed' if w['left_untransformed'] else 'wrongly changed') for w in wrong[:4])
+                                              'left untransformed' if w['left_untransformed'] else 'differs from the specification') for w in wrong[:4])
             res.violation({
                 'what': 'SepMatrix::%s must transform exactly the pairs with %s in the given set and leave every other pair alone '
                         '(constraints.h:282-295; Coq C18_transform%sSubset_spec): %s(%s, {%s}) - pair %s%s'
@@ -938,7 +944,7 @@ def run(tier):
                            'AT LEAST ONE node' if kd == 'O' else 'BOTH nodes', 'Open' if kd == 'O' else 'Closed',
                            'transformOpenSubset' if kd == 'O' else 'transformClosedSubset', TF[t], ','.join(str(x) for x in sorted(ids)), descr,
                            '' if gkeys == wkeys else '; first ids of the map changed'),
-                'family': fam, 'case': line, 'case_format': SUB_FORMAT, 'ops': [{'op': o[0], 'transform': TF[o[1]], 'set': sorted(o[2])} for o in ops],
+                'family': fam, 'corpus_note': sub_notes[i] if i < len(sub_notes) else None, 'case': line, 'case_format': SUB_FORMAT, 'ops': [{'op': o[0], 'transform': TF[o[1]], 'set': sorted(o[2])} for o in ops],
                 'wrong_pairs': wrong[:10], 'implementation': sa[i], 'specification': S_, 'loop_model_of_HEAD': M,
                 'matches_model_with_hoisted_set_iterator': sa[i] == H,
                 'failing_cases': len(sub_fail),
@@ -1093,7 +1099,20 @@ META = {
                 'the reader\'s ids reversed) and tglf_rejected_iff (exactly the coinciding pairs are rejected). Tie: exhaustive correspondence '
                 'of the model with the compiled library on every run (576 states x 7 transforms / 49 pairs / 192 requests, SepMatrix op '
                 'sequences over every public mutator overload, generated constraints) plus the property oracles run on the real outputs '
-                '(incl. TGLF round trips in both id modes over graphs mixing nodes with and without external ids).',
+                '(incl. TGLF round trips in both id modes over graphs mixing nodes with and without external ids). '
+                'Subset transforms (Dialect/SepSubsetModel.v + SepSubset.v): the merge loops of SepMatrix::transformClosedSubset / '
+                'transformOpenSubset are modelled statement by statement on the two-level sorted map (outer/inner two-pointer scans, '
+                'out_of_set, part (a)/(b), per-row rewind of the set iterator) and proved equal to the declarative specification for ALL '
+                'matrices, id sets and payload actions: C18_transformOpenSubset_spec (cell (i,j) transformed iff AT LEAST ONE of i, j is in '
+                'the set - constraints.h:289-295, not exactly one; every other cell, the keys and their order unchanged) and '
+                'C18_transformClosedSubset_spec (iff BOTH), under the container invariants keys_ascb / rows_ascb / ascb ids (std::map, '
+                'std::set) and upperb (second id > first id) for the closed variant only (C18_transformClosedSubset_lower_triangle_refuted '
+                'shows it is needed); C18_transform{Open,Closed}Subset_flat connect the loops to the record-list model of the op-sequence '
+                'correspondence; C18_transformOpenSubset_hoisted_refuted: the variant with the set iterator shared by the rows of the second '
+                'pass violates the specification on a well-formed matrix for every transform. Tie: harness mode sub (arbitrary sparse '
+                'matrices through setSepPair / free, raw ids, Graph::transform{Open,Closed}Subset) against the extracted specification '
+                '(decides VIOLATION) and the extracted loop model: exhaustive over 5 ids (fixed + random matrices x all 32 subsets x 7 '
+                'transforms x open/closed) and random larger matrices in ascending / non-monotone partner patterns.',
         'design_ref': 'DESIGN.md 5.18'},
     'level_note': 'SepPair::transform could not be obtained through cpp2v (no switch / std::swap in its fragment, double->Q loses the sign bit): '
                   'it is hand-modelled and tied by the exhaustive field-by-field correspondence instead. Trusted: Coq kernel; the hand model '
@@ -1104,6 +1123,10 @@ META = {
                   'code): Graph::writeTglf -> buildGraphFromTglf on random graphs incl. node/edge/route sections. Not covered: extraBdryGap < 0 '
                   '(the writer would print a negative number and the reader would reverse the direction); Graph::rotate90cw itself does not '
                   'swap node dimensions (documented in graphs.cpp), so for non-square nodes with BDRY gaps it preserves satisfaction only '
-                  'after the following destress.',
+                  'after the following destress. Subset transforms: the model is a sorted association list per std::map level and '
+                  'rebuilds the payloads; two cells of one matrix sharing ONE SepPair object (possible only by handing the same shared '
+                  'pointer to setSepPair twice) are outside the model; m_sparseLookup[i] in the second pass never inserts (pass1_out_keys). '
+                  'The hypotheses keys_ascb/rows_ascb/upperb/ascb are evaluated by the extracted deciders on every generated input '
+                  '(W flags) and the first ids of the real map are compared after every call.',
     'technique': 'Coq proof over a hand-written Gallina model + exhaustive finite correspondence with the compiled C++ + verified checkers on real outputs',
 }
